@@ -90,7 +90,8 @@ def gen_plan(seed, index, tier):
         qs = [rng.choice([0.025, 0.05]), rng.choice([0.95, 0.975])]
         if rng.random() < 0.5:
             qs.insert(1, rng.choice([0.25, 0.5, 0.75]))
-        n_boot = rng.randint(8, 20)
+        # (2 <= B <= 20; tiny B makes the pair hinge on the interpolation inside a single gap of the resample values)
+        n_boot = rng.choice([2, 2, 3, 4, 6]) if rng.random() < 0.35 else rng.randint(8, 20)
     else:
         qs = rng.sample(QUANTS, rng.randint(1, 4))
         if rng.random() < 0.6:
@@ -383,11 +384,11 @@ def execute(plan, ctx):
     # ---- 6. quantile bracket against the spy-computed per-resample values -----------------------
     _bracket_checks(ctx, plan, res1, resamples)
     # ---- 7. wide pair ------------------------------------------------------------------------------
-    # (for 8 <= B <= 20, q_lo <= 0.05 and q_hi >= 0.95 the interpolated quantiles lie in the first and the last gap
+    # (for 2 <= B <= 20, q_lo <= 0.05 and q_hi >= 0.95 the interpolated quantiles lie in the first and the last gap
     #  of the sorted resample values, so for values that are not all equal the pair has positive width and encloses
     #  their mean; this holds for every metric, integer-valued ones included)
     for mk in ("mean", "npos"):
-        if not (mk in plan["metrics"] and no_cf and plan["varying"] and n >= 8 and 8 <= B <= 20 and okc
+        if not (mk in plan["metrics"] and no_cf and plan["varying"] and n >= 8 and 2 <= B <= 20 and okc
                 and isinstance(cv, list) and len(cv) == len(qs)):
             continue
         lo_i = [i for i, q in enumerate(qs) if q <= 0.05]
